@@ -59,6 +59,67 @@ def emit_groups(ctx: Ctx, fnqual: str) -> list[set[str]]:
     return out
 
 
+def rule_flag_groups(ctx: Ctx, rep: Report, fnqual: str, floor: int) -> None:
+    """FLAGPAIR: the flag that chooses between two interchangeable gates is
+    computed from the availability of exactly those two gates.
+
+    In ZXZXZDecomposition, `use_u1` picks U1 over RZ and `use_rx` picks RX
+    over SqrtX; each is `always_... or (<A> in gate_set and <B> not in
+    gate_set)`.  If the availability test names a gate of the *other* pair,
+    the pass emits a gate the model does not have for exactly one family of
+    gate sets."""
+    f = ctx.fn(fnqual)
+    g = ctx.cfg(f)
+    rd = ctx.rd(f)
+    rep.seen(f.qualname)
+    n = 0
+    done = set()
+    for node in g.nodes:
+        st = node.stmt
+        if node.kind != 'test' or not isinstance(st, ast.If) or not (
+                isinstance(st.test, ast.Name) and len(st.body) == 1
+                and len(st.orelse) == 1):
+            continue
+        gs = []
+        for arm in (st.body[0], st.orelse[0]):
+            if isinstance(arm, ast.Expr) and isinstance(
+                    arm.value, ast.Call) and norm(arm.value.func).endswith(
+                    '.append_gate') and arm.value.args:
+                x = _gate(arm.value.args[0])
+                if x:
+                    gs.append(x)
+        if len(gs) != 2 or gs[0] == gs[1]:
+            continue
+        flag = st.test.id
+        if (flag, frozenset(gs)) in done:
+            continue
+        done.add((flag, frozenset(gs)))
+        n += 1
+        rep.count()
+        atoms_, defs = rd.closure(node, st.test)
+        consulted = set()
+        for d in defs:
+            if d.value is None:
+                continue
+            for c in ast.walk(d.value):
+                if isinstance(c, ast.Compare) and len(c.ops) == 1 and (
+                        isinstance(c.ops[0], (ast.In, ast.NotIn))):
+                    x = _gate(c.left)
+                    if x:
+                        consulted.add(x)
+        rep.check(
+            bool(consulted) and consulted <= set(gs), 'FLAGPAIR',
+            f'{fnqual.split(":")[1]}:{flag}', f.path, node.lineno,
+            f'`{flag}` chooses between {sorted(gs)} and is computed from '
+            f'the availability of {sorted(consulted)}',
+            f'`{flag}` chooses between {sorted(gs)} but is computed from the '
+            f'availability of {sorted(consulted)}: for a gate set that has '
+            'one of these and not the other, the pass emits a gate the model '
+            'does not have', key='flag',
+        )
+    rep.floor('FLAGPAIR', n, floor, f'gate-choosing flags in {fnqual}')
+
+
 def _eval(e: ast.AST, env: dict[str, bool]) -> bool:
     if isinstance(e, ast.BoolOp):
         vals = [_eval(v, env) for v in e.values]
